@@ -76,6 +76,10 @@ namespace nmtools::utl
             // TODO: assert/throw
             NMTOOLS_VERIF_CAPACITY(11,new_size,Capacity);
             if (new_size <= Capacity) {
+                // elements added by growing are value-initialized (not stale values of a previous, larger size)
+                for (size_type i=size_; i<new_size; i++) {
+                    buffer[(index_type)i] = T{};
+                }
                 size_ = new_size;
             }
         }
